@@ -60,6 +60,9 @@ class C18(Check):
             cfgs.append(Config('floor_%s' % tag, self.floor, {'tag': tag}))
         cfgs.append(Config('forward_single', self.forward, {'joint': False}))
         cfgs.append(Config('forward_joint', self.forward, {'joint': True}))
+        for joint in (False, True):
+            cfgs.append(Config('forward_beta_forms_%s' % ('joint' if joint else 'single'), self.forward_beta_forms,
+                               {'joint': joint, 'S': 2 if tier == 'quick' else 3}, split=2))
         return cfgs
 
     def _zrun(self, c, N, W, lam, x, u, rho):
@@ -175,6 +178,53 @@ class C18(Check):
         else:
             f.append(a.label_switching_cost is beta)
         c.prove('front_ends_forward_forms_unchanged', conj(f))
+
+    def forward_beta_forms(self, c, joint, S):
+        """End to end through a front end: the per-pair switching cost that reaches the main loop when
+        beta is a scalar b, and when it is a vector filled with b, must be the same for every pair
+        (whatever the front end does to it -- e.g. masking series boundaries -- it must do to both)."""
+        Rp = self.R
+        K, W, N = 2, 1, 1
+        b = c.real('b', 0)
+        c.assume(R(b) > 0)
+        lens = [int(c.int('L_%d' % s_, 2, 3)) for s_ in range(S if joint else 1)]
+        total = sum(L - W + 1 for L in lens)
+        seen = []
+        real_fit = Rp.main_loop.fit_stacked_data
+
+        def spy(user_args, stacked):
+            seen.append(user_args)
+            return real_fit(user_args, stacked)
+        c.notes.update({'kind': 'forward_beta_forms', 'joint': joint, 'lens': lens})
+        vec = np.ndarray._new([b] * total, (total,), np.float64, owner='caller')
+        for form in (b, vec):
+            ml = MainLoop(Rp, c, K, N * W, modes={'initial': 'summary'}, label_hook=lambda r, T: [i % K for i in range(T)])
+            ml.s_initial = lambda k, d: [i % K for i in range(len(d))]
+            Rp.main_loop.fit_stacked_data = spy
+            try:
+                with ml:
+                    kw = dict(window_size=W, num_clusters=K, iteration_limit=1, min_cluster_size=1, sparsity_weight=0.1,
+                              label_switching_cost=form)
+                    data = [np.zeros((L, N)) for L in lens]
+                    ok, res = guarded(c, 'beta_forms_agree', Rp.front_end.ticc_joint_labels if joint
+                                      else Rp.front_end.ticc_labels, data if joint else data[0], **kw)
+            finally:
+                Rp.main_loop.fit_stacked_data = real_fit
+            if not ok:
+                return
+
+        def effective(a):
+            v = a.label_switching_cost
+            if isinstance(v, np.ndarray):
+                return [R(x) for x in v._flat()]
+            return [R(v)] * total
+        f = [len(seen) == 2]
+        if f[0]:
+            e1, e2 = effective(seen[0]), effective(seen[1])
+            f.append(len(e1) == len(e2) == total)
+            if f[-1]:
+                f += [x == y for x, y in zip(e1[:total - 1], e2[:total - 1])]     # entry T-1 prices no pair
+        c.prove('beta_forms_agree', conj(f))
 
 
 CHECK = C18()
